@@ -104,6 +104,39 @@ func universeRequests(rng *rand.Rand, s Sem, big bool) []reqSpec {
 	return out
 }
 
+// historyProbes: requests that differ from an EARLIER request of the same block only in what a per-middleware memo might
+// key on: a preflight whose first ACRH line was approved alone before, followed by further lines; the same origin as actual
+// request and as preflight; one origin after another.
+func historyProbes(rng *rand.Rand, s Sem) []reqSpec {
+	a := allowedOrigin(rng, s).String()
+	other := "https://not-allowed.example.org"
+	meth := "GET"
+	if len(s.Meths) > 0 {
+		meth = s.Meths[0]
+	}
+	first := "x-a"
+	if len(s.HNames) > 0 {
+		first = s.HNames[0]
+	}
+	all := first
+	if len(s.HNames) > 1 {
+		all = strings.Join(s.HNames, ",")
+	}
+	pf := func(o string, acrh ...string) reqSpec {
+		h := http.Header{hOrigin: {o}, hACRM: {meth}}
+		if len(acrh) > 0 {
+			h[hACRH] = acrh
+		}
+		return reqSpec{Method: "OPTIONS", H: h}
+	}
+	get := func(o string) reqSpec { return reqSpec{Method: "GET", H: http.Header{hOrigin: {o}}} }
+	return []reqSpec{
+		pf(a, first), pf(a, first, "x-zzz-not-allowed"), pf(a, first, first), pf(a, all), pf(a, all, "x-zzz-not-allowed"), pf(a, first, ""),
+		pf(a, "x-zzz-not-allowed"), pf(a, first),
+		get(a), get(other), pf(a), pf(other), get(a), pf(other, first), get(other), get(a),
+	}
+}
+
 // ---------------------------------------------------------------- junk requests (C03 / C16 / C17)
 
 var junkMethods = []string{"GET", "OPTIONS", "OPTIONS", "OPTIONS", "POST", "PUT", "options", "HEAD", "TRACE", "PATCH", "", "G\x00T", "Ünï"}
@@ -401,6 +434,39 @@ func emitServe(t *tracer, m *cors.Middleware, dbg bool, rs reqSpec, pre http.Hea
 	return false
 }
 
+// freshResponse serves the request on a middleware created for this one request from the same Config (and debug mode): the
+// reference for "the response depends only on the configuration, the debug mode and the request" (C12).
+func freshResponse(cfg *cors.Config, dbg bool, rs reqSpec, pre http.Header, inner *innerSpec) (out map[string]any) {
+	out = map[string]any{"fresh": map[string]any{"status": -1, "hdrs": map[string]any{}}, "freshfinal": map[string]any{}, "freshinvoked": -1}
+	defer func() { recover() }()
+	m, err := cors.NewMiddleware(*cloneConfig(cfg))
+	if err != nil {
+		return
+	}
+	m.SetDebug(dbg)
+	w := newRec()
+	for k, v := range pre {
+		w.h[k] = append([]string(nil), v...)
+	}
+	if inner == nil {
+		inner = &innerSpec{Status: 200}
+	}
+	invoked := 0
+	m.Wrap(http.HandlerFunc(func(w2 http.ResponseWriter, _ *http.Request) {
+		invoked++
+		for k, v := range inner.Set {
+			w2.Header()[k] = append([]string(nil), v...)
+		}
+		if inner.Status != 0 {
+			w2.WriteHeader(inner.Status)
+			if inner.Body != "" {
+				w2.Write([]byte(inner.Body))
+			}
+		}
+	})).ServeHTTP(w, newReq(rs.Method, cloneHeader(rs.H)))
+	return map[string]any{"fresh": absResp(w), "freshfinal": hdrJSON(w.final()), "freshinvoked": invoked}
+}
+
 func codeLines(lines []string) [][]int {
 	out := [][]int{}
 	for _, l := range lines {
@@ -433,6 +499,7 @@ func cmdServe(args []string) {
 	out := fs.String("out", "", "summary JSON")
 	shard := fs.Int("shard", 0, "this shard's index")
 	nshards := fs.Int("nshards", 1, "number of shards the configurations are dealt to")
+	fresh := fs.Bool("fresh", false, "also serve every request on a fresh middleware of the same configuration (C12) and serve each block twice")
 	fs.Parse(args)
 	rng := newRand()
 	t := newTracer(*trace)
@@ -457,12 +524,19 @@ func cmdServe(args []string) {
 	}
 	sort.Strings(allNames)
 	t.emit(map[string]any{"ev": "Names", "names": allNames})
-	var served, rejected, panics, preflights, processed int
+	var served, rejected, panics, preflights, processed, reused int
 	var samples []any
+	// ONE long-lived middleware is taken from configuration to configuration with Reconfigure (every other configuration gets a
+	// new one), having served the previous configurations' requests; the first and last requests of the next block are a
+	// sample of the previous block's: what a middleware did under an earlier configuration must not show
+	var live *cors.Middleware
+	var prevReqs []reqSpec
+	nth := 0
 	for ci, s := range sems {
 		if ci%*nshards != *shard {
 			continue
 		}
+		nth++
 		cfg := s.spell(rng)
 		var m *cors.Middleware
 		if s.Pass {
@@ -480,12 +554,18 @@ func cmdServe(args []string) {
 			}
 		} else {
 			var err error
-			m, err = cors.NewMiddleware(*cfg)
+			if live != nil && nth%2 == 0 {
+				m, err = live, live.Reconfigure(cfg)
+				reused++
+			} else {
+				m, err = cors.NewMiddleware(*cfg)
+			}
 			if err != nil {
 				rejected++
 				t.emit(map[string]any{"ev": "Rejected", "cfg": cfgJSON(cfg), "err": err.Error()})
 				continue
 			}
+			live = m
 		}
 		if *prop == "C11" {
 			// life-cycle steps that must leave the abstract state - and hence the dispatch rule - as it is:
@@ -506,6 +586,28 @@ func cmdServe(args []string) {
 		}
 		if *mode == "junk" || *mode == "both" {
 			reqs = append(reqs, junkRequests(rng, s, *nreq)...)
+		}
+		reqs = append(reqs, historyProbes(rng, s)...)
+		own := reqs
+		if len(prevReqs) > 0 && !s.Pass {
+			// most recent first (a memo of the previous configuration's last request is hit at once), then the oldest ones
+			var carry []reqSpec
+			for i := len(prevReqs) - 1; i >= 0 && len(carry) < 24; i-- {
+				carry = append(carry, prevReqs[i])
+			}
+			for i := 0; i < len(prevReqs) && i < 12; i++ {
+				carry = append(carry, prevReqs[i])
+			}
+			reqs = append(append(append([]reqSpec{}, carry...), reqs...), carry...)
+		}
+		if !s.Pass {
+			prevReqs = own
+		}
+		if *fresh {
+			// the whole block a second time in another order: the answer must not depend on what was served before
+			again := append([]reqSpec{}, reqs...)
+			rng.Shuffle(len(again), func(i, j int) { again[i], again[j] = again[j], again[i] })
+			reqs = append(reqs, again...)
 		}
 		type variant struct {
 			pre   http.Header
@@ -532,7 +634,11 @@ func cmdServe(args []string) {
 			for vi, vr := range variants {
 				t.emit(map[string]any{"ev": "Block", "dbg": dbg, "variant": vi})
 				for _, rs := range reqs {
-					if emitServe(t, m, dbg, rs, vr.pre, vr.inner, nil) {
+					var extra map[string]any
+					if *fresh && !s.Pass {
+						extra = freshResponse(cfg, dbg, rs, vr.pre, vr.inner)
+					}
+					if emitServe(t, m, dbg, rs, vr.pre, vr.inner, extra) {
 						panics++
 					}
 					served++
@@ -551,7 +657,7 @@ func cmdServe(args []string) {
 			samples = append(samples, map[string]any{"config": cfgJSON(cfg), "requests": rq})
 		}
 	}
-	writeJSON(*out, map[string]any{"served": served, "configs": processed, "rejected": rejected, "panics": panics,
+	writeJSON(*out, map[string]any{"served": served, "configs": processed, "reused": reused, "rejected": rejected, "panics": panics,
 		"preflights": preflights, "events": t.n, "samples": samples})
 }
 
